@@ -44,7 +44,9 @@ class Composer:
         self.frame_tab: Dict[Tuple[Any, ...], List[Tuple[Any, ...]]] = {}
         for sc, hits in frames(m):
             key = (sc.n_vis, sc.n_meta, sc.name, sc.add_ws, sc.single_kind, sc.first_is_meta)
-            toks = {tuple(strip_names(t)) for _, t, _ in hits}
+            from .layout import indent_is_zero
+            generic = [h for h in hits if not indent_is_zero(h[0].atoms)] or hits    # paths that only exist for indent == 0 are instances of these
+            toks = {tuple(strip_names(t)) for _, t, _ in generic}
             self.frame_tab[key] = [list(t) for t in toks]
 
     # ---- implementation model -------------------------------------------------------------------------
@@ -119,6 +121,7 @@ class Composer:
             ch = child_of(k)
             if impl:
                 rows = sib_matches(self.m, state, ch, params)
+                rows = [r_ for r_ in rows if not r_.indent_zero] or rows
                 if not rows:
                     raise Unmodelled(f"composition: no row for {ch!r} in {state}")
                 r = rows[0]
